@@ -22,7 +22,7 @@ for d in sorted(os.listdir(os.path.join(HERE, "seeded"))):
     prop = meta.get("property") or ("C" + d[1:3])
     t = time.time()
     out = subprocess.run([os.path.join(HERE, "selftest", "try_patch.sh"), os.path.join(p, "patch.diff"), prop],
-                         capture_output=True, text=True, env=dict(os.environ, WIDTH="700")).stdout
+                         capture_output=True, text=True, env=dict(os.environ, WIDTH="700", KEEP_REPLAYS=os.path.join(HERE, "corpus", ".incoming", d))).stdout
     m = re.search(r"== (\S+) exit=(\d+) (\d+)s", out)
     kinds = sorted(set(re.findall(r'"kind": "([a-zA-Z0-9_]+)"', out)))
     ver = {
